@@ -3,6 +3,7 @@
 package local
 
 import (
+	"time"
 	"context"
 	"errors"
 
@@ -133,7 +134,7 @@ func vAgree(l *State, c *vCatalog) bool {
 			return false
 		}
 		cc := c.checks[string(id.ID)]
-		if cc == nil || cc.Status != ck.Check.Status || cc.ServiceID != ck.Check.ServiceID {
+		if cc == nil || cc.Status != ck.Check.Status || cc.ServiceID != ck.Check.ServiceID || cc.Output != ck.Check.Output {
 			return false
 		}
 		m++
@@ -162,10 +163,12 @@ func VerifC16_SyncConverges() {
 	// local registrations
 	webPort := verifrt.Int("local.web.port", 1, 65535)
 	localTagOverride := false
+	localWebCheck := false
 	if verifrt.Bool("local.web") {
 		var cks []*structs.HealthCheck
 		if verifrt.Bool("local.web.check") {
-			cks = append(cks, &structs.HealthCheck{Node: "n", CheckID: "c-web", ServiceID: "web", ServiceName: "web", Status: api.HealthPassing})
+			localWebCheck = true
+			cks = append(cks, &structs.HealthCheck{Node: "n", CheckID: "c-web", ServiceID: "web", ServiceName: "web", Status: api.HealthPassing, Output: "ok"})
 		}
 		web := vSvc("web", webPort)
 		web.Tags = []string{"v1"}
@@ -203,6 +206,19 @@ func VerifC16_SyncConverges() {
 		cat.services["zz"] = vSvc("zz", 1)
 		if verifrt.Bool("catalog.foreign.check") {
 			cat.checks["c-zz"] = &structs.HealthCheck{Node: "n", CheckID: "c-zz", ServiceID: "zz", ServiceName: "zz", Status: api.HealthPassing}
+		}
+	}
+	if localWebCheck {
+		// the catalog's copy of the service check: absent, equal, or drifted in status or in output
+		if k := verifrt.Choice("catalog.webcheck", 4); k > 0 {
+			cw := &structs.HealthCheck{Node: "n", CheckID: "c-web", ServiceID: "web", ServiceName: "web", Status: api.HealthPassing, Output: "ok"}
+			if k == 2 {
+				cw.Status = api.HealthCritical
+			}
+			if k == 3 {
+				cw.Output = "stale"
+			}
+			cat.checks["c-web"] = cw
 		}
 	}
 	if verifrt.Bool("catalog.nodecheck") {
@@ -264,4 +280,44 @@ func VerifC16_SyncConverges() {
 	} else {
 		verifrt.Reached("repaired-after-rpc-error")
 	}
+}
+
+// Check output with a deferral interval (the agent default): an output-only update is pushed later by a
+// timer, but once the check has been pushed for another reason and nothing is pending any more, a full sync
+// repairs a drifted output like anything else.
+func VerifC16_DeferredOutput() {
+	l := NewState(Config{NodeName: "n", NodeID: "11111111-2222-3333-4444-555555555555", Datacenter: "dc1",
+		CheckUpdateInterval: time.Hour}, hclog.NewNullLogger(), new(token.Store))
+	l.TriggerSyncChanges = func() {}
+	cat := &vCatalog{services: map[string]*structs.NodeService{}, checks: map[string]*structs.HealthCheck{}, failAt: -1}
+	l.Delegate = cat
+	id := structs.NewCheckID("c-node", nil)
+	if err := l.AddCheck(&structs.HealthCheck{Node: "n", CheckID: "c-node", Status: api.HealthPassing, Output: "a"}, "", false); err != nil {
+		panic(err)
+	}
+	verifrt.Assert("C16.deferred.first-sync-succeeds", l.SyncFull() == nil)
+	// an output-only update arms the deferred write-back
+	outputOnly := verifrt.Bool("output-only-update")
+	if outputOnly {
+		l.UpdateCheck(id, api.HealthPassing, "b")
+	}
+	// a status change is pushed at once
+	statusChange := verifrt.Bool("status-change")
+	if statusChange {
+		l.UpdateCheck(id, api.HealthCritical, "down")
+		verifrt.Assert("C16.deferred.sync-changes-succeeds", l.SyncChanges() == nil)
+	}
+	// the catalog's copy drifts behind the agent's back
+	if verifrt.Bool("catalog.output-drifted") {
+		cat.checks["c-node"].Output = "tampered"
+	}
+	verifrt.Assert("C16.deferred.full-sync-succeeds", l.SyncFull() == nil)
+	lc := l.checks[id]
+	cc := cat.checks["c-node"]
+	verifrt.Assert("C16.deferred.status-converges", cc != nil && cc.Status == lc.Check.Status)
+	pending := outputOnly && !statusChange // the only case in which a write-back is still legitimately pending
+	if !pending {
+		verifrt.Assert("C16.deferred.output-converges-when-nothing-is-pending", cc != nil && cc.Output == lc.Check.Output)
+	}
+	verifrt.Reached("end")
 }
